@@ -32,6 +32,7 @@ int main(int argc, char **argv) {
     else if (ctx.engine == "exact") run_exact_case(ctx, k, r, d);
     else if (ctx.engine == "lift") run_lift_case(ctx, k, r, d);
     else if (ctx.engine == "twin") run_twin_case(ctx, k, r, d);
+    else if (ctx.engine == "flow") run_flow_case(ctx, k, r, d);
     else {
       fprintf(stderr, "unknown engine\n");
       return 2;
